@@ -454,7 +454,8 @@ func (rm *ResponseManager) unpauseRequest(requestID graphsync.RequestID, extensi
 
 func (rm *ResponseManager) updateRequest(requestID graphsync.RequestID, extensions []graphsync.ExtensionData) error {
 	inProgressResponse, ok := rm.inProgressResponses[requestID]
-	if !ok {
+	// once the final status is queued an update would replace it with a partial status
+	if !ok || inProgressResponse.state == graphsync.CompletingSend {
 		return graphsync.RequestNotFoundErr{}
 	}
 	_ = inProgressResponse.responseStream.Transaction(func(rb responseassembler.ResponseBuilder) error {
